@@ -298,6 +298,13 @@ func (fc *FnCtx) instrWrites(in ssa.Instruction, ws *WriteSet, inOwnFn bool) {
 		ws.union(fc.callWrites(x))
 	case *ssa.Go:
 		ws.union(fc.callWrites(x))
+		if fc.contract != nil && inOwnFn {
+			for _, cs := range fc.siteSpecs(x) {
+				for _, st := range cs.Sets {
+					ws.add("g_" + st.Name)
+				}
+			}
+		}
 	case *ssa.Defer:
 		// effects happen at rundefers
 	case *ssa.RunDefers:
